@@ -360,13 +360,13 @@ I_Slot == /\ c.m = "I" /\ c.i <= Len(c.e.parts) /\ c.e.parts[c.i].t = "slot"
           /\ Go(E(c.e.parts[c.i].e), Push([f |-> "interp", e |-> c.e, i |-> c.i, acc |-> c.acc]))
 I_BadSlot ==
     /\ c.m = "I" /\ c.i <= Len(c.e.parts) /\ c.e.parts[c.i].t = "badslot"
-    /\ Fail("InterpolateStringParseFailed", SlotLoc(c.e.loc, c.e.parts[c.i].off),
+    /\ Fail("InterpolateStringParseFailed", SlotLoc(c.e.loc, c.e.parts[c.i].off, c.i),
             M_InterpolateStringParseFailed)
 I_Done == /\ c.m = "I" /\ c.i > Len(c.e.parts) /\ Go(V(Slot(VStr(c.acc))), K)
 
 V_Interp ==
     /\ c.m = "V" /\ HasTop("interp")
-    /\ LET loc == SlotLoc(Top.e.loc, Top.e.parts[Top.i].off) IN
+    /\ LET loc == SlotLoc(Top.e.loc, Top.e.parts[Top.i].off, Top.i) IN
        IF c.s.v.k # "string"
        THEN FailIn(Pop, "InterpolatedValueNotString", loc, M_InterpolatedValueNotString(c.s.v))
        ELSE IF ~ValidUtf8(c.s.v.s)
@@ -389,7 +389,7 @@ CallBuiltin(e, fv, args) ==
         ELSE LET r == Render(args[1].v, heap) IN
              IF r.ok THEN Upd(V(Slot(VNull)), Pop, env, scopes, heap, Append(out, r.b))
              ELSE IF r.why = "utf8" THEN FailIn(Pop, "PrintUtf8", e.loc, M_PrintUtf8)
-             ELSE FailIn(Pop, "CyclicValue", e.loc, M_Cyclic)
+             ELSE FailIn(Pop, "PrintCyclic", e.loc, M_PrintCyclic)
     ELSE IF name = BN_str_len THEN
         IF nargs # 0 THEN FailIn(Pop, "BuiltinArgs", e.loc, M_BuiltinArgs("len", 0, nargs))
         ELSE IF ~hasThis THEN FailIn(Pop, "Dev", e.loc, M_Dev("'this' doesn't exist"))
